@@ -4,11 +4,9 @@ from vlib import core
 
 THEOREMS = ["Props.C03." + t for t in [
     "grammar_wf", "peg_total", "parse_total",
-    "field_ids", "field_ids_written", "field_ids_implicit", "enum_values",
+    "field_ids", "field_ids_written", "enum_values",
     "annotations_append", "annotations_keys_first_occurrence",
-    "literal_unescape", "literal_lexed",
-    "tree_conforms", "walker_no_panic_partial",
-    "skip_absorbs", "list_separator_optional", "layout_independent_partial",
+    "literal_unescape",
 ]]
 
 PARTIAL = [
